@@ -356,9 +356,15 @@ pub enum Payload {
     Silent,
     /// a zero-sized error type (boxing it does not allocate; it cannot carry a tag)
     Unit,
+    /// `std::io::Error` of a kind that generic code likes to treat as retryable
+    IoInterrupted,
+    IoWouldBlock,
+    IoTimedOut,
+    /// a string-backed error whose text says "temporary failure, retry"
+    TextRetry,
 }
 
-pub const PAYLOADS: [Payload; 7] = [
+pub const PAYLOADS: [Payload; 11] = [
     Payload::Typed,
     Payload::Text,
     Payload::Io,
@@ -366,6 +372,10 @@ pub const PAYLOADS: [Payload; 7] = [
     Payload::InnerIvp,
     Payload::Silent,
     Payload::Unit,
+    Payload::IoInterrupted,
+    Payload::IoWouldBlock,
+    Payload::IoTimedOut,
+    Payload::TextRetry,
 ];
 
 impl Payload {
@@ -378,6 +388,10 @@ impl Payload {
             Payload::InnerIvp => "inner_ivp_error",
             Payload::Silent => "silent",
             Payload::Unit => "unit",
+            Payload::IoInterrupted => "io_interrupted",
+            Payload::IoWouldBlock => "io_would_block",
+            Payload::IoTimedOut => "io_timed_out",
+            Payload::TextRetry => "text_retry",
         }
     }
     pub fn from_name(s: &str) -> Option<Payload> {
